@@ -44,7 +44,7 @@ def finish(pid, P, tier, seed, ev, reported, known, t0):
         rec = dict(property=pid, failed_obligation=f['obligation'], kind=f.get('kind'),
                    repo_file=f.get('repo_file'), repo_lines=f.get('repo_lines'),
                    verifier_message=f.get('message'), verifier_output=f.get('rendered'),
-                   failing_input=f.get('failing_input'), replay=f.get('replay'))
+                   failing_input=f.get('failing_input'), replay=f.get('replay'), instances=f.get('instances'))
         json.dump(rec, open(path, 'w'), indent=1)
         tail = '' if f.get('failing_input') else ' no-failing-input-found'
         print('VIOLATION property=%s replay=%s%s' % (pid, path, tail))
